@@ -259,7 +259,146 @@ def job_item_step(K, with_reference=False, timeout_s=1800):
                 sample=dict(K=K, sizes="symbolic to 10^12", with_reference=with_reference), **common)
 
 
-def _search_decode_witness(md, with_reference):
+def item_step2_block():
+    """body of the item loop of encoding 2's `_decode` and the names of its variables by role (parameters by position, loop index /
+    item from the `for` target, number of bins in use from the `return`)"""
+    import ast
+    import moptipyapps.binpacking2d.encodings.ibl_encoding_2 as e2
+    fd, _ = xform.parse_fn(e2._decode)
+    params = [a.arg for a in fd.args.args]
+    body = xform.body_wo_doc(fd)
+    loops = [st for st in body if isinstance(st, ast.For)]
+    ret = [n.id for n in ast.walk(body[-1]) if isinstance(n, ast.Name) and n.id != "int"] if body and isinstance(body[-1], ast.Return) else []
+    if len(params) != 7 or len(loops) != 1 or len(ret) != 1:
+        raise core.StructureMismatch("ibl_encoding_2._decode: expected (x, y, instance, bin_width, bin_height, bin_starts, bin_ends), one item loop and a return")
+    r = dict(x=params[0], y=params[1], instance=params[2], bin_width=params[3], bin_height=params[4], bin_starts=params[5], bin_ends=params[6], bin_id=ret[0])
+    tg = loops[0].target
+    if isinstance(tg, ast.Tuple) and len(tg.elts) == 2 and all(isinstance(e, ast.Name) for e in tg.elts) and "enumerate" in ast.unparse(loops[0].iter):
+        r["i"], r["item"] = tg.elts[0].id, tg.elts[1].id
+    elif isinstance(tg, ast.Name) and "range" in ast.unparse(loops[0].iter):
+        r["i"], r["item"] = tg.id, None
+    else:
+        raise core.StructureMismatch("ibl_encoding_2._decode: item loop header not recognised")
+    blk = xform.extract_block(e2._decode, lambda d: [st for st in xform.body_wo_doc(d) if isinstance(st, ast.For)][0].body, name="item_step2")
+    return blk, r
+
+
+def growth_patterns(K):
+    """bin ids of K already decoded rows: the first row opens bin 1, every later row is in a used bin or opens the next one"""
+    out = []
+
+    def rec(p):
+        if len(p) == K:
+            out.append(tuple(p))
+            return
+        for b in range(1, max(p) + 2):
+            rec(p + [b])
+    if K == 0:
+        return [()]
+    rec([1])
+    return out
+
+
+def job_item_step2(K, pattern, with_reference=False, timeout_s=1800):
+    """Inductive step of encoding 2 (first fit over all open bins): the body of the item loop, started from an ARBITRARY feasible
+    state with K rows distributed over the open bins as `pattern` says (any sizes, any positions; bin_starts / bin_ends are the
+    index ranges the decoder maintains), garbage in the new row and behind the used part of the two index arrays.  Afterwards the
+    new row is a feasible placement in one of the open bins or the first box of a new bin, the index ranges are updated, nothing
+    else changed.  With with_reference (C14): it is the FIRST bin in which the documented rule finds a place, at that place."""
+    from . import ibl_reference as R
+    step, RL = item_step2_block()
+    ref_place = xform.transform(R.ref_place, core.install_builtins(), {}, also=("ref_descent", "ref_left")) if with_reference else None
+    B = max(pattern) if pattern else 0
+    if B == 0:
+        raise core.EngineError("encoding 2 always has one (possibly empty) bin")
+    starts = [min(j for j in range(K) if pattern[j] == b) for b in range(1, B + 1)]
+    ends = [max(j for j in range(K) if pattern[j] == b) + 1 for b in range(1, B + 1)]
+
+    def h(eng):
+        W, H = fresh_int("W"), fresh_int("H")
+        inst = fresh_array("inst", (1, 3))
+        w0, h0 = inst[0, 0], inst[0, 1]
+        mx = z3.If(W.e >= H.e, W.e, H.e)
+        mn = z3.If(W.e >= H.e, H.e, W.e)
+        eng.assume(z3.And(W.e >= 1, H.e >= 1, W.e <= P.MAXDIM, H.e <= P.MAXDIM, w0.e >= 1, h0.e >= 1, w0.e <= mx, h0.e <= mx,
+                          z3.Not(z3.And(w0.e > mn, h0.e > mn))))
+        y0 = fresh_array("y", (K + 1, 6))
+        cells = list(y0.cells)
+        for j in range(K):
+            cells[j * 6 + 1] = pattern[j]            # concrete bin ids (the pattern), everything else symbolic
+        y = SymArray(cells, (K + 1, 6), name="y")
+        X = P.rows_of(y, K + 1)
+        cs = []
+        for i in range(K):
+            _, b, l, bt, r, t = X[i]
+            cs += [l >= 0, bt >= 0, r <= W.e, t <= H.e, l < r, bt < t]
+            for j in range(i):
+                if pattern[i] == pattern[j]:
+                    _, b2, l2, bt2, r2, t2 = X[j]
+                    cs.append(z3.Or(r <= l2, r2 <= l, t <= bt2, t2 <= bt))
+        eng.assume(z3.And(*cs))
+        bs = SymArray(starts + [fresh_int(f"bsg{k}") for k in range(K + 1 - B)], (K + 1,), name="bin_starts")
+        be = SymArray(ends + [fresh_int(f"beg{k}") for k in range(K + 1 - B)], (K + 1,), name="bin_ends")
+        item_id = fresh_int("item")
+        eng.assume(z3.Or(item_id.e == 1, item_id.e == -1))
+        pre_rows = [[mk(v) if z3.is_expr(v) else v for v in X[i]] for i in range(K)]
+        pre_bs, pre_be = list(bs.cells), list(be.cells)
+        kw = {RL["bin_height"]: H, RL["bin_width"]: W, RL["bin_id"]: B, RL["i"]: K, RL["instance"]: inst, RL["y"]: y,
+              RL["bin_starts"]: bs, RL["bin_ends"]: be, RL["x"]: SymArray([0] * K + [item_id], (K + 1,), name="x")}
+        if RL["item"] is not None:
+            kw[RL["item"]] = item_id
+        out = xform.call_block(step, **kw)
+        eng.pending = [(l_, c) for l_, c in eng.pending if l_.startswith("index in range")]
+        eng.flush()
+        idd, b, l, bt, r, t = [lift(y[K, k]) for k in range(6)]
+        nb = lift(out[RL["bin_id"]])
+        post = [idd == 1, l >= 0, bt >= 0, r <= W.e, t <= H.e, b >= 1, b <= B + 1,
+                z3.Or(z3.And(r - l == w0.e, t - bt == h0.e), z3.And(r - l == h0.e, t - bt == w0.e)),
+                z3.If(b == B + 1, z3.And(nb == B + 1, l == 0, bt == 0), nb == B)]
+        for j in range(K):
+            _, _b2, l2, bt2, r2, t2 = [lift(v) for v in pre_rows[j]]
+            post.append(z3.Or(b != pattern[j], r <= l2, r2 <= l, t <= bt2, t2 <= bt))
+            post.append(z3.And(*[lift(y[j, k]) == lift(pre_rows[j][k]) for k in range(6)]))       # earlier rows untouched
+        for k in range(B):          # index ranges: the chosen bin's end moves behind the new row, the others stay
+            post.append(lift(bs[k]) == starts[k])
+            post.append(lift(be[k]) == z3.If(b == k + 1, K + 1, ends[k]))
+        post.append(z3.Implies(b == B + 1, z3.And(lift(bs[B]) == K, lift(be[B]) == K + 1)))
+        for k in range(B + 1, K + 1):
+            post.append(z3.And(lift(bs[k]) == lift(pre_bs[k]), lift(be[k]) == lift(pre_be[k])))
+        eng.oblige(z3.And(*post), "item step keeps the packing feasible and the index ranges consistent", now=True)
+        if with_reference:
+            wq = z3.If(item_id.e < 0, h0.e, w0.e)
+            hq = z3.If(item_id.e < 0, w0.e, h0.e)
+            swap = z3.Or(wq > W.e, hq > H.e)
+            wf, hf = mk(z3.If(swap, hq, wq)), mk(z3.If(swap, wq, hq))
+            exp = z3.And(b == B + 1, l == 0, bt == 0, r == lift(wf), t == lift(hf))
+            for bb in range(B, 0, -1):       # first fit: the lowest bin in which the rule's final position is inside the bin
+                boxes = [tuple(pre_rows[j]) for j in range(K) if pattern[j] == bb]
+                rl, rb, rr, rt = ref_place(boxes, wf, hf, W, H, 4 * len(boxes) + 6)
+                inside = z3.And(lift(rr) <= W.e, lift(rt) <= H.e)
+                exp = z3.If(inside, z3.And(b == bb, l == lift(rl), bt == lift(rb), r == lift(rr), t == lift(rt)), exp)
+            eng.oblige(exp, "item lands in the first bin, at the place, the documented rule prescribes", now=True)
+        return "stepped"
+    eng = Engine(timeout_ms=120000, deadline=time.time() + timeout_s, max_paths=20000)
+    eng.prefer = [z3.And(z3.Int("W") <= 40, z3.Int("H") <= 40), z3.And(z3.Int("W") <= 2000, z3.Int("H") <= 60)]
+    ok = eng.explore(h)
+    common = dict(paths=eng.paths, queries=dict(sat=eng.n_sat, unsat=eng.n_unsat, unknown=eng.unknown), solver_s=round(eng.t_solver, 2), vacuity=dict(outcomes=eng.outcomes))
+    if eng.violations:
+        v = eng.violations[0]
+        md = {d.name(): v.model[d].as_long() for d in v.model.decls() if z3.is_int_value(v.model[d])}
+        wit = _search_decode_witness(md, with_reference, enc=2)
+        if wit is not None:
+            clause = "follows_documented_rule" if with_reference and wit.get("kind") == "reference" else "feasible_packing"
+            return violated(clause, "binpacking2d/encodings/ibl_encoding_2.py", f"item step ({v.label}) -> whole-decoder witness {wit}", wit, validated=1, **common)
+        return inconclusive(f"item-step counterexample ({v.label}, pattern {pattern}) starts from an intermediate state; no whole-decoder witness found by the bounded search: "
+                            f"{ {k: md[k] for k in sorted(md) if not k.startswith('y_') or int(k[2:]) < 6 * K} }", **common)
+    if not ok or not eng.outcomes.get("stepped"):
+        return inconclusive(f"not conclusive {eng.stats()}", **common)
+    return held(summary=f"encoding 2 item step from an arbitrary feasible state, rows in bins {pattern}{' vs reference rule' if with_reference else ''}: {eng.paths} paths",
+                sample=dict(K=K, pattern=list(pattern), sizes="symbolic to 10^12", with_reference=with_reference), **common)
+
+
+def _search_decode_witness(md, with_reference, enc=1):
     """bounded concrete search for a whole-decoder input exhibiting a step counterexample: small instances with the bin and item
     sizes of the model (and small variations), all signed permutations; checked for feasibility (and against the reference)"""
     import itertools
@@ -284,14 +423,14 @@ def _search_decode_witness(md, with_reference):
                 tried += 1
                 if tried > 3000:
                     return None
-                wq = dict(enc=1, W=W, H=H, items=[list(i) for i in items], x=list(x))
+                wq = dict(enc=enc, W=W, H=H, items=[list(i) for i in items], x=list(x))
                 bad, info = replay(wq)
                 if bad:
                     wq["observed"] = info
                     wq["kind"] = "feasibility"
                     return wq
                 if with_reference and info.get("rows") is not None:
-                    exp, nb = R.ref_decode_1(list(x), [(w, h) for (w, h, _) in items], W, H, 10 * k + 10)
+                    exp, nb = (R.ref_decode_1 if enc == 1 else R.ref_decode_2)(list(x), [(w, h) for (w, h, _) in items], W, H, 10 * k + 10)
                     if [list(r) for r in exp] != info["rows"] or nb != info["n_bins"]:
                         wq["observed"] = dict(decoded=info["rows"], expected=[list(r) for r in exp])
                         wq["kind"] = "reference"
@@ -366,6 +505,10 @@ def jobs(tier):
     js = [Job("selftest", job_selftest, dict(seed=seed), "selftest", 180)]
     for K in (1, 2, 3) + ((4, 5) if tier == "thorough" else ()):
         js.append(Job(f"item-step/enc1/K{K}", job_item_step, dict(K=K, timeout_s=1500 if tier == "quick" else 3300), "feasible_packing", 1700 if tier == "quick" else 3500, weight=K, optional=True))
+    for K in (1, 2, 3) + ((4,) if tier == "thorough" else ()):
+        for pat in growth_patterns(K):
+            js.append(Job(f"item-step/enc2/K{K}/{''.join(map(str, pat))}", job_item_step2, dict(K=K, pattern=list(pat), timeout_s=1500 if tier == "quick" else 3300),
+                          "feasible_packing", 1700 if tier == "quick" else 3500, weight=K, optional=True))
     for n in range(1, 4):
         for reps in P.compositions(n):
             js.append(Job(f"ctor-domain/reps{'-'.join(map(str, reps))}", job_ctor_domain, dict(reps=reps), "instance_domain", 600))
